@@ -21,13 +21,13 @@ def main():
         run_cases(chk, "vlib.formcheck", "run_form", rnames, spec, a.jobs)
         chk.sample(randforms.describe(rnames[0]))
         chk.extra["random_forms"] = nrand
-    if a.tier == "thorough":
-        spec2 = {"tier": a.tier, "itypes": ["cell"], "rel": REL_DEFAULT, "options": {}}
-        run_cases(chk, "vlib.formcheck", "run_form", names, spec2, a.jobs)
+    # FFCx's DEFAULT table tolerances (what users run): every form in the thorough tier, a slice in the quick tier
+    spec2 = {"tier": a.tier, "itypes": ["cell"], "rel": REL_DEFAULT, "options": {}}
+    run_cases(chk, "vlib.formcheck", "run_form", names if a.tier == "thorough" else names[::4], spec2, a.jobs)
     chk.encoded("generated tabulate_tensor_* C text of every cell integral (ffcx.compiler.compile_ufl_objects)",
                 "whole pipeline ffcx.analysis -> ffcx.ir -> ffcx.codegeneration (observed through its output)")
     chk.bounds = {"programs": len(names), "inputs": "all w, c, coordinate_dofs symbolic (box |.|<=2), |divisor| >= 0.05",
-                  "loops": "literal trip counts, fully unrolled", "rel_tol": [REL_STRICT] + ([REL_DEFAULT] if a.tier == "thorough" else [])}
+                  "loops": "literal trip counts, fully unrolled", "rel_tol": [REL_STRICT, REL_DEFAULT]}
     chk.assumptions = ["exact real arithmetic (no rounding)", "UFL lowering, basix tabulation/quadrature correct",
                        "atoms identified at 1e-11 relative", "gcc/pycparser front-end"]
     chk.finish("kernel text symbolically executed in exact polynomial domain vs independent UFL evaluator; Q-tol (QF_LRA) per A entry")
